@@ -23,7 +23,9 @@ func run() (code int) {
 	defer func() {
 		if r := recover(); r != nil {
 			fmt.Fprintf(os.Stderr, "HARNESS ERROR: %v\n", r)
-			if _, ok := r.(engine.HarnessError); !ok {
+			switch r.(type) {
+			case engine.HarnessError, engine.SetupRefused:
+			default:
 				panic(r)
 			}
 			code = 2
